@@ -620,6 +620,7 @@ def main():
                 else:
                     fresh.append(fl)
             if not fresh:
+                r["status"] = "known-finding"
                 continue
             first = fresh[0]
             inputs, excerpt = fetch_trace(u, r["_gb"], first["obligation"], wd)
